@@ -26,6 +26,10 @@ pub fn info(prop: &str) -> PropInfo {
         "C06" => PropInfo { id: "C06", engine: "e1", rule: "seeded programs whose makers create 0..k tracked structs conditionally with colliding idents; non-trivial = a maker re-executed and at least one struct identity was compared (kept) or a discard was expected" },
         "C05" => PropInfo { id: "C05", engine: "e1", rule: "seeded programs whose shared sub-nodes are q_lru (declared capacity 4), histories interleaving requests, writes, set_lru_capacity(0..4), trigger_lru_eviction; non-trivial = the list model evicted at least one value and it was later recomputed or the bound was checked at full capacity" },
         "C09" => PropInfo { id: "C09", engine: "e1", rule: "seeded programs interning small values into It1/It2/It3/ItInf (single shard) under LOW-only, mixed and MEDIUM/HIGH input durabilities, with bursts of revisions; every DidReuseInternedValue is checked against the retention model; non-trivial = at least one reuse event was checked, or (durable / immortal classes) an identity was observed to be kept across revisions" },
+        "C12" => PropInfo { id: "C12", engine: "e1", rule: "seeded cyclic programs over 4-bit sets whose block members are q_fix/q_fixj with monotone bodies (nested, input-conditional cycles), every node requested in random order across histories that reshape the cycles; non-trivial = at least one fixpoint iteration happened and a request followed a write that followed a request" },
+        "C13" => PropInfo { id: "C13", engine: "e1", rule: "same generator with cycle_result members; expected = fallback for nodes on a cycle of the input-determined call graph, body value otherwise; non-trivial = a cycle was finalized and request-after-write-after-request" },
+        "C14" => PropInfo { id: "C14", engine: "e1", rule: "cyclic programs whose block mixes functions without recovery and q_fix; outcome per request: cycle panic (required on a fresh database when the from-scratch DFS re-enters a non-recovering function) or the least-fixpoint value; non-trivial = a cycle panic was observed and later requests succeeded" },
+        "C15" => PropInfo { id: "C15", engine: "e1", rule: "fixpoint programs with an input-guarded non-monotone step; guard on => bounded panic or any value, never more than 200 iterations; guard off later => least fixpoint; non-trivial = a non-convergence panic was observed" },
         "C07" => PropInfo { id: "C07", engine: "e1", rule: "seeded programs churning tracked structs and interned values (revisions=1..3, single shard) with functions keyed by them; non-trivial = a slot was observed with a bumped generation or an interned slot was reused" },
         "C10" => PropInfo { id: "C10", engine: "e1", rule: "seeded makers that conditionally specify q_spec for structs they create, consumers via returned handles, both request orders; non-trivial = request after write after request in a program that contains a Specify op and a Spec node" },
         "C11" => PropInfo { id: "C11", engine: "e1", rule: "seeded acyclic programs with conditional Acc ops at several depths; accumulated() requested at random points; non-trivial = at least one non-empty accumulated vector was compared after a write" },
@@ -238,9 +242,66 @@ pub fn make_case(prop: &str, seed: u64, tier: Tier) -> Case {
             h.durs = vec![None, None, Some(Dur::Low), Some(Dur::Medium), Some(Dur::High), Some(Dur::Never)];
             class = "accumulate".into();
         }
+        "C12" | "C13" | "C14" | "C15" => {}
         _ => panic!("unknown property {prop}"),
     }
     scale(tier, &mut g, &mut h);
+    let cyc = match prop {
+        "C12" => {
+            let mut c = CycCfg::base();
+            if tier == Tier::Thorough {
+                c.block.1 = 8;
+            }
+            class = "fixpoint".into();
+            Some(c)
+        }
+        "C13" => {
+            let mut c = CycCfg::base();
+            c.block_kinds = vec![(Kind::Fb, 1)];
+            class = "fallback".into();
+            Some(c)
+        }
+        "C14" => {
+            let mut c = CycCfg::base();
+            c.block_kinds = vec![(Kind::Plain, 3), (Kind::Fix, 2), (Kind::NoEq, 1)];
+            class = "no_recovery".into();
+            Some(c)
+        }
+        "C15" => {
+            let mut c = CycCfg::base();
+            c.bad = true;
+            c.block = (1, 4);
+            class = "nonconverging".into();
+            Some(c)
+        }
+        _ => None,
+    };
+    if let Some(c) = cyc {
+        let prog = gen_cyclic(&mut r, &c);
+        let world = gen_world(&mut r, prog.n_inputs, prog.n_cells, prog.m);
+        h.steps = (6, 28);
+        h.w_set = 35;
+        h.w_query = 55;
+        h.w_synth = 4;
+        h.w_trigcancel = 2;
+        h.w_clone = 3;
+        if prop == "C15" {
+            h.steps = (4, 14);
+        }
+        let mut hist = gen_history(&mut r, &prog, &h);
+        if let Some((i, f, _)) = prog.bad_guard {
+            // make sure the guard is toggled: bad mode on early, off later
+            let k = hist.len() / 2;
+            hist.insert(0, Step::SetIn { i, f, v: 1, d: None });
+            hist.insert(k + 1, Step::SetIn { i, f, v: 0, d: None });
+            let top = (prog.nodes.len() - 1) as u16;
+            hist.push(Step::Query { n: top, arg: 0 });
+            for b in prog.blk_lo..prog.blk_hi {
+                hist.push(Step::Query { n: b, arg: 0 });
+            }
+        }
+        return Case { property: prop.to_string(), engine: "e1".into(), class, seed, knobs, prog, world: (&world).into(), hist, panic_at: None, fault_mask: u32::MAX, conc: None, expect: vec![] };
+    }
     let prog = gen_acyclic(&mut r, &g);
     let world = gen_world(&mut r, prog.n_inputs, prog.n_cells, prog.m);
     let hist = gen_history(&mut r, &prog, &h);
@@ -278,6 +339,10 @@ pub fn nontrivial(case: &Case, out: &RunOut) -> bool {
         "C04" => base && st("untracked_reexecuted_in_revision") > 0,
         "C05" => base && (st("lru_evicted_value_recomputed") > 0 || st("lru_bound_checked_at_capacity") > 0),
         "C09" => base && (st("intern_reuse_checked") > 0 || st("intern_identity_kept") > 0),
+        "C12" => base && st("cycle_iterations") > 0,
+        "C13" => base && st("cycles_finalized") > 0,
+        "C14" => st("cycle_panic_seen") > 0 && st("ev_will_execute") > 0,
+        "C15" => st("nonconvergence_panic_seen") > 0,
         "C06" => base && (st("ts_identity_kept") > 0 || st("ts_discard_seen") > 0),
         "C07" => base && (st("slot_generation_bumped") > 0 || st("interned_slot_reused") > 0),
         "C10" => base && case.prog.nodes.iter().any(|n| n.kind == Kind::Spec) && case.prog.nodes.iter().any(|n| n.ops.iter().any(|o| matches!(o, Op::Specify { .. }))),
